@@ -852,6 +852,18 @@ func genPlanOpt(seed uint64, prop string, cold bool) *Plan {
 	// collector faults: mostly in short-lived processes (in a long-lived worker a
 	// collection costs as much as ten runs, the process-wide oracle tables have
 	// to be marked, and the heap layout depends on thousands of earlier runs)
+	// stack faults: some Sets act on a caller's LOCAL variable, deep in the
+	// goroutine stack (the runtime moves a stack that has to grow: an address
+	// taken as a number before the move is stale after it)
+	if r.chance(0.02) {
+		for t := range p.Tasks {
+			for i := range p.Tasks[t] {
+				if p.Tasks[t][i].K == kSet && r.chance(0.6) {
+					p.Tasks[t][i].N = 1 + r.intn([]int{16, 64, 256, 1024, 6000}[r.intn(5)])
+				}
+			}
+		}
+	}
 	pGC := 0.002
 	if cold {
 		pGC = 0.1 // a young process: small heap, cheap collections, short history to replay
